@@ -20,6 +20,7 @@
   The cache-free functions are those of Hs.Model.Ns.  Core-only imports (linked into `hsdriver`).
 -/
 import Hs.Model.Ns
+import Hs.Model.NsAssoc
 namespace Hs.NsCache
 open Hs Hs.Ns
 
@@ -188,6 +189,209 @@ def reflFitsP (fuel : Nat) (ns : Ns) (r : Rec) (base : Name) : Prog (Res Bool) :
     | .ok ds => anyFitsP fuel ns base ds
     | e => .ret e.cast
 
+
+/-! ### the association / implementation / relationship queries, as programs
+
+Their only cache accesses are those of `inheritance`, `all_supertypes_of` and `fits`; everything else they read
+is the immutable `defs` map. -/
+section
+open Hs.NsA
+
+/-- `find_reciprocal_associations`: `inheritance(parent)` (read, dropped at the end of the function: no other
+cache operation happens in between), then a scan of all defs -/
+def findReciprocalP (fuel : Nat) (x : NsX) (parent r : Name) : Prog (Res (List Name)) :=
+  (inhG fuel x.ns parent).bind fun ri =>
+    match ri with
+    | .ok inh =>
+      .ret (.ok ((x.xd.filter (fun d =>
+        match d.tag r with
+        | some (.list l) => (definedSyms x.ns.defs l).any (fun t => inh.contains t)
+        | _ => false)).map (·.name)))
+    | .err => .ret .err | .panic => .ret .panic | .diverge => .ret .diverge | .depth => .ret .depth
+
+/-- `associations` -/
+def associationsP (fuel : Nat) (x : NsX) (parent assoc : Name) : Prog (Res (List Name)) :=
+  match getX x.xd assoc with
+  | none => .ret (.ok [])
+  | some ad =>
+    if !isAssoc ad then .ret (.ok [])
+    else if !ad.has nComputed then
+      match getX x.xd parent with
+      | some pd =>
+        match pd.getList assoc with
+        | some l => .ret (.ok (definedSyms x.ns.defs l))
+        | none => .ret (.ok [])
+      | none => .ret (.ok [])
+    else
+      match ad.getSymbol nReciprocalOf with
+      | some r => if defined x.ns.defs r then findReciprocalP fuel x parent r else .ret (.ok [])
+      | none => .ret (.ok [])
+
+/-- the `for def in &defs { super_types.extend(self.all_supertypes_of(..)) }` loop of `implementation` -/
+def supersOfAllP (fuel : Nat) (ns : Ns) : List Name → List Name → Prog (Res (List Name))
+  | [], acc => .ret (.ok acc)
+  | d :: ds, acc =>
+    (allSupP fuel ns.defs d).bind fun r =>
+      match r with
+      | .ok all => supersOfAllP fuel ns ds (extendSet acc all)
+      | .err => .ret .err | .panic => .ret .panic | .diverge => .ret .diverge | .depth => .ret .depth
+
+/-- `implementation` -/
+def implementationP (fuel : Nat) (x : NsX) (s : Name) : Prog (Res (List Name × List Name)) :=
+  (supersOfAllP fuel x.ns ((conjunctsDefs x.ns s).filter (fun n => !isFeature n)) []).bind fun r =>
+    match r with
+    | .ok sup => .ret (.ok ((conjunctsDefs x.ns s).filter (fun n => !isFeature n), sup.filter (fun n => hasMarkerX x.xd n nMandatory)))
+    | .err => .ret .err | .panic => .ret .panic | .diverge => .ret .diverge | .depth => .ret .depth
+
+/-- what a tag's def says under a name, before any `fits` -/
+inductive RawVal where
+  | absent
+  | other
+  | sym (s : Name)
+deriving Inhabited, DecidableEq
+
+def RawVal.isSome : RawVal → Bool
+  | .absent => false
+  | _ => true
+
+/-- `subject_def.and_then(|def| def.get(name))` -/
+def rawVal (xd : DefsX) (tagKey name : Name) : RawVal :=
+  match getX xd tagKey with
+  | none => .absent
+  | some d =>
+    match d.tag name with
+    | none => .absent
+    | some (.sym s) => .sym s
+    | some _ => .other
+
+def rawRecip (xd : DefsX) (tagKey : Name) : Option Name → RawVal
+  | some rc => rawVal xd tagKey rc
+  | none => .absent
+
+def resolveRecX (recs : List RecX) (r : Name) : Option RecX := recs.find? (fun rc => rc.key == some r)
+
+/-- outcome of one pass over the subject's tags -/
+inductive StepX where
+  | ret (b : Bool)
+  | next (subject : RecX) (queried : List Name) (refTag : Option Name)
+  | done
+
+/-- `if let Some(rel_term) = rel_term { self.fits(rel_val, rel_term) } else { true }` -/
+def fitsTermL (fuel : Nat) (ns : Ns) (term : Option Name) (s : Name) : Res Bool :=
+  match term with
+  | some tm => fits fuel ns s tm
+  | none => .ok true
+
+/-- the same, `fits` as a cache access -/
+def fitsTermP (fuel : Nat) (ns : Ns) (term : Option Name) (s : Name) : Prog (Res Bool) :=
+  match term with
+  | some tm => fitsP fuel ns s tm
+  | none => .ret (.ok true)
+
+/-- what the loop does with a tag once it knows whether the relationship value fits the term -/
+def relDecide (recs : List RecX) (transitive : Bool) (t : SubjTag) (q : List Name) (rt : Option Name) (fits : Bool) :
+    StepX ⊕ (List Name × Option Name) :=
+  if fits && rt.isSome then
+    if t.ref.isSome && t.ref == rt then .inl (.ret true)
+    else if transitive then
+      match t.ref with
+      | some sv =>
+        if !q.contains sv then
+          match resolveRecX recs sv with
+          | some new => if !new.tags.isEmpty then .inl (.next new (sv :: q) rt) else .inr (sv :: q, rt)
+          | none => .inr (sv :: q, rt)
+        else .inr (q, rt)
+      | none => .inr (q, rt)
+    else .inr (q, rt)
+  else if fits then .inl (.ret true)
+  else .inr (q, rt)
+
+/-- the `for (subject_key, subject_val) in cur_subject.iter()` body, `fits` called where the code calls it -/
+def relInnerL (fuel : Nat) (x : NsX) (recs : List RecX) (rel : Name) (recip term : Option Name) (transitive : Bool)
+    (id : Option Name) : List SubjTag → List Name → Option Name → Res StepX
+  | [], _, _ => .ok .done
+  | t :: rest, q, rt =>
+    let relD := rawVal x.xd t.key rel
+    let useRecip := !relD.isSome && rt == id && t.ref.isSome && recip.isSome
+    let relVal := if useRecip then rawRecip x.xd t.key recip else relD
+    let rt := if useRecip && (rawRecip x.xd t.key recip).isSome then t.ref else rt
+    match relVal with
+    | .sym s =>
+      match fitsTermL fuel x.ns term s with
+      | .ok f =>
+        match relDecide recs transitive t q rt f with
+        | .inl st => .ok st
+        | .inr (q', rt') => relInnerL fuel x recs rel recip term transitive id rest q' rt'
+      | .err => .err | .panic => .panic | .diverge => .diverge | .depth => .depth
+    | _ => relInnerL fuel x recs rel recip term transitive id rest q rt
+
+/-- the `'search` loop -/
+def relLoopL (fuel : Nat) (x : NsX) (recs : List RecX) (rel : Name) (recip term : Option Name) (transitive : Bool) :
+    Nat → RecX → List Name → Option Name → Res Bool
+  | 0, _, _, _ => .diverge
+  | lf + 1, subject, q, rt =>
+    match relInnerL fuel x recs rel recip term transitive subject.id subject.tags q rt with
+    | .ok (.ret b) => .ok b
+    | .ok .done => .ok false
+    | .ok (.next s q' rt') => relLoopL fuel x recs rel recip term transitive lf s q' rt'
+    | .err => .err | .panic => .panic | .diverge => .diverge | .depth => .depth
+
+/-- `has_relationship`, cache-free, `fits` evaluated where the code evaluates it -/
+def hasRelationshipL (fuel lf : Nat) (x : NsX) (recs : List RecX) (rel : Name) (term target : Option Name)
+    (subject : RecX) : Res Bool :=
+  match getX x.xd rel with
+  | none => .ok false
+  | some rd =>
+    match inheritance fuel x.ns rel with
+    | .ok inh =>
+      if !inh.contains nRelationship then .ok false
+      else relLoopL fuel x recs rel (rd.getSymbol nReciprocalOf) term (rd.hasMarker nTransitive) lf subject [] target
+    | .err => .err | .panic => .panic | .diverge => .diverge | .depth => .depth
+
+/-- the same three functions as programs: `fits` and `inheritance` are cache accesses -/
+def relInnerP (fuel : Nat) (x : NsX) (recs : List RecX) (rel : Name) (recip term : Option Name) (transitive : Bool)
+    (id : Option Name) : List SubjTag → List Name → Option Name → Prog (Res StepX)
+  | [], _, _ => .ret (.ok .done)
+  | t :: rest, q, rt =>
+    let relD := rawVal x.xd t.key rel
+    let useRecip := !relD.isSome && rt == id && t.ref.isSome && recip.isSome
+    let relVal := if useRecip then rawRecip x.xd t.key recip else relD
+    let rt := if useRecip && (rawRecip x.xd t.key recip).isSome then t.ref else rt
+    match relVal with
+    | .sym s =>
+      (fitsTermP fuel x.ns term s).bind fun fr =>
+        match fr with
+        | .ok f =>
+          match relDecide recs transitive t q rt f with
+          | .inl st => .ret (.ok st)
+          | .inr (q', rt') => relInnerP fuel x recs rel recip term transitive id rest q' rt'
+        | .err => .ret .err | .panic => .ret .panic | .diverge => .ret .diverge | .depth => .ret .depth
+    | _ => relInnerP fuel x recs rel recip term transitive id rest q rt
+
+def relLoopP (fuel : Nat) (x : NsX) (recs : List RecX) (rel : Name) (recip term : Option Name) (transitive : Bool) :
+    Nat → RecX → List Name → Option Name → Prog (Res Bool)
+  | 0, _, _, _ => .ret .diverge
+  | lf + 1, subject, q, rt =>
+    (relInnerP fuel x recs rel recip term transitive subject.id subject.tags q rt).bind fun r =>
+      match r with
+      | .ok (.ret b) => .ret (.ok b)
+      | .ok .done => .ret (.ok false)
+      | .ok (.next s q' rt') => relLoopP fuel x recs rel recip term transitive lf s q' rt'
+      | .err => .ret .err | .panic => .ret .panic | .diverge => .ret .diverge | .depth => .ret .depth
+
+def hasRelationshipP (fuel lf : Nat) (x : NsX) (recs : List RecX) (rel : Name) (term target : Option Name)
+    (subject : RecX) : Prog (Res Bool) :=
+  match getX x.xd rel with
+  | none => .ret (.ok false)
+  | some rd =>
+    (inhG fuel x.ns rel).bind fun ri =>
+      match ri with
+      | .ok inh =>
+        if !inh.contains nRelationship then .ret (.ok false)
+        else relLoopP fuel x recs rel (rd.getSymbol nReciprocalOf) term (rd.hasMarker nTransitive) lf subject [] target
+      | .err => .ret .err | .panic => .ret .panic | .diverge => .ret .diverge | .depth => .ret .depth
+end
+
 /-! ### queries, answers, the cache-free answers -/
 
 inductive Query where
@@ -197,11 +401,20 @@ inductive Query where
   | fits (a b : Name)
   | reflect (r : Rec)
   | reflFits (r : Rec) (base : Name)
+  /-- `associations(parent, association)` (`is`, `tag_on`, `tags` are instances) -/
+  | assoc (parent a : Name)
+  /-- `implementation(def)` -/
+  | impl (k : Name)
+  /-- `fits_marker` / `fits_val` / `fits_choice` / `fits_entity` -/
+  | fitsRoot (which : Nat) (k : Name)
+  /-- `has_relationship(subject, rel, term, target, resolve)` with the resolver's records -/
+  | rel (recs : List NsA.RecX) (rel : Name) (term : Option Name) (target : Option Name) (subject : NsA.RecX)
 deriving Repr, Inhabited
 
 inductive Ans where
   | names (r : Res (List Name))
   | bool (r : Res Bool)
+  | pair (r : Res (List Name × List Name))
 deriving Repr, DecidableEq, Inhabited
 
 structure Cfg where
@@ -209,6 +422,11 @@ structure Cfg where
   fuel  : Nat
   /-- the DashMap shard of a key -/
   shard : Name → Nat
+  /-- the full def dicts (Hs.Model.NsAssoc), read by the association / implementation / relationship queries -/
+  xd    : NsA.DefsX := []
+
+/-- the namespace as Hs.Model.NsAssoc sees it -/
+def Cfg.x (cfg : Cfg) : NsA.NsX := { ns := cfg.ns, xd := cfg.xd }
 
 /-- the pure loop of `compute_entity_type` -/
 def entityLoop (fuel : Nat) (ns : Ns) : List Name → Res Unit
@@ -242,6 +460,10 @@ def pureAns (cfg : Cfg) : Query → Ans
   | .fits a b => .bool (fits cfg.fuel cfg.ns a b)
   | .reflect r => .names (reflectFull cfg.fuel cfg.ns r)
   | .reflFits r b => .bool (reflFitsFull cfg.fuel cfg.ns r b)
+  | .assoc p a => .names (NsA.associations cfg.fuel cfg.x p a)
+  | .impl k => .pair (NsA.implementation cfg.fuel cfg.x k)
+  | .fitsRoot w k => .bool (NsA.fitsRoot cfg.fuel cfg.x w k)
+  | .rel recs r term target s => .bool (hasRelationshipL cfg.fuel (recs.length + 1) cfg.x recs r term target s)
 
 /-- the program of one query -/
 def queryP (cfg : Cfg) : Query → Prog Ans
@@ -251,6 +473,11 @@ def queryP (cfg : Cfg) : Query → Prog Ans
   | .fits a b => (fitsP cfg.fuel cfg.ns a b).bind fun r => .ret (.bool r)
   | .reflect r => (reflectP cfg.fuel cfg.ns r).bind fun x => .ret (.names x)
   | .reflFits r b => (reflFitsP cfg.fuel cfg.ns r b).bind fun x => .ret (.bool x)
+  | .assoc p a => (associationsP cfg.fuel cfg.x p a).bind fun x => .ret (.names x)
+  | .impl k => (implementationP cfg.fuel cfg.x k).bind fun x => .ret (.pair x)
+  | .fitsRoot w k => (fitsP cfg.fuel cfg.ns k (NsA.rootName w)).bind fun x => .ret (.bool x)
+  | .rel recs r term target s =>
+    (hasRelationshipP cfg.fuel (recs.length + 1) cfg.x recs r term target s).bind fun x => .ret (.bool x)
 
 /-- a thread issues its queries one after the other -/
 def runQs (cfg : Cfg) : List Query → Prog (List Ans)
